@@ -69,7 +69,7 @@ def g_mcp(r, big):
 def g_lcs(r, big):
     k = r.randint(2, 3)
     alpha = r.randint(2, 3)
-    strings = [[r.randint(1, alpha) for _ in range(r.randint(1, 6 if not big else 7))] for _ in range(k)]
+    strings = [[r.randint(1, alpha) for _ in range(r.randint(1, 6) if not big else r.randint(5, 10))] for _ in range(k)]
     # the program uses the shortest string as the variable source; the oracle enumerates subsequences of the first: put a shortest one first
     strings.sort(key=len)
     txt = f"{k} {alpha}\n" + "\n".join(f"{len(s)} " + "".join("abc"[c - 1] for c in s) for s in strings) + "\n"
